@@ -387,10 +387,78 @@ func (env *Env) parserLayout(e *flow.Engine, fn *ssa.Function) (segs []seg, prob
 				continue
 			}
 		}
+		// repeated field built as a pre-sized slice whose elements are
+		// assigned by index (`xs := make([][]byte, n); xs[i] = data[a:b]`)
+		if n, ok := freshFixedSlice(v); ok {
+			got := map[int64]seg{}
+			bad := ""
+			e.Walk(fn, false, func(in ssa.Instruction, fr flow.Frame) {
+				st, ok := in.(*ssa.Store)
+				if !ok {
+					return
+				}
+				ia, ok := st.Addr.(*ssa.IndexAddr)
+				if !ok || !flow.Eq(flow.StripConv(e.Eval(ia.X, fr.Ctx)), v) {
+					return
+				}
+				idx, val := e.Eval(ia.Index, fr.Ctx), e.Eval(st.Val, fr.Ctx)
+				trips := int64(1)
+				if loop, ok := hasIter(idx); ok {
+					tc, ok := tripCount(e, fn, loop)
+					if !ok {
+						bad = "element store in a loop without a constant trip count"
+						return
+					}
+					trips = tc
+				}
+				for k := int64(0); k < trips; k++ {
+					at, ok := affine(idx, k)
+					lo, hi, ok2 := sliceOf(val, k)
+					if !ok || !ok2 {
+						bad = "element " + truncate(idx.String(), 60) + " is not an affine slice of the input"
+						return
+					}
+					if _, dup := got[at]; dup {
+						bad = fmt.Sprintf("element %d assigned more than once", at)
+						return
+					}
+					got[at] = seg{lo, hi, fi.Name, "bytes", int(at), pos}
+				}
+			})
+			if bad == "" && int64(len(got)) != n {
+				bad = fmt.Sprintf("%d of %d elements assigned", len(got), n)
+			}
+			if bad != "" {
+				problems = append(problems, fi.Name+": "+bad)
+				continue
+			}
+			for k := int64(0); k < n; k++ {
+				segs = append(segs, got[k])
+			}
+			continue
+		}
 		problems = append(problems, fmt.Sprintf("field %s is not a slice / little-endian integer of the input: %s", fi.Name, truncate(v.String(), 140)))
 	}
 	sort.Slice(segs, func(i, j int) bool { return segs[i].lo < segs[j].lo })
 	return
+}
+
+// freshFixedSlice: the whole of a freshly allocated array of constant length
+// (what `make([]T, n)` with a constant n evaluates to).
+func freshFixedSlice(t *flow.Term) (int64, bool) {
+	t = flow.StripConv(t)
+	if t.Op != flow.OpSlice || len(t.Args) != 3 {
+		return 0, false
+	}
+	d := flow.StripConv(t.Args[0])
+	if d.Op != flow.OpDeref || len(d.Args) != 1 || d.Args[0].Op != flow.OpNew {
+		return 0, false
+	}
+	n, ok := arrayLenOf(d)
+	if !ok || !(t.Args[1].IsConst("") || t.Args[1].IsConst("0")) || !(t.Args[2].IsConst("") || t.Args[2].IsConst(fmt.Sprint(n))) {
+		return 0, false
+	}
+	return n, true
 }
 
 // protoOracle derives the fixed layouts from proto/tdx.proto: fields in
